@@ -4,7 +4,7 @@
    drop point and cancellation point, with any number of callers. *)
 From Coq Require Import List NArith Lia Bool Arith.
 From FFS Require Import WsClient.Model WsClient.Spec WsClient.ProofsHttp WsClient.ProofsWsBase
-  WsClient.ProofsWsPairing WsClient.ProofsWsReconnect.
+  WsClient.ProofsWsPairing WsClient.ProofsWsReconnect WsClient.ProofsWsResub.
 Import ListNotations.
 
 (* 1. HTTP: with a limit configured, the number of requests outstanding at the backend never exceeds
@@ -89,6 +89,40 @@ Theorem C18_ws_reconnect_completes :
        (w_chan w2 k <> None \/ exists r, w_rpc w2 = RDeliver k r)).
 Proof. exact ws_reconnect_completes. Qed.
 Print Assumptions C18_ws_reconnect_completes.
+
+(* 6. WebSocket: per reconnect each configured subscription is re-requested exactly once.  PARTIAL:
+      proved for event sequences in which no reconnect begins while a Subscribe() call is between
+      addConfiguredSub and the completion of its own send (ghost flag w_substraddle), and no
+      websocket send fails inside handleReconnect.  [sends_since_clear s] counts the eth_subscribe
+      frames sent for s since the last reconnect began, [todo] is what handleReconnect still has on
+      its list.  The full statement is false of the faithful model: C18_ws_resubscribe_once_refuted. *)
+Theorem C18_ws_resubscribe_once_partial :
+  forall evs w,
+    wrun evs winit = Some w -> no_rc_abort evs -> w_substraddle w = false ->
+    forall s, In s (w_conf w) -> settled (w_spc w s) = true ->
+      sends_since_clear s (w_log w) + cnt_in s (todo (w_hpc w)) = 1 /\
+      (w_hpc w = HIdle -> sends_since_clear s (w_log w) = 1).
+Proof. exact ws_resubscribe_once_partial. Qed.
+Print Assumptions C18_ws_resubscribe_once_partial.
+
+(* 6b. the witness: Subscribe() registers its subscription, a reconnect snapshots it, Subscribe() sends
+       its eth_subscribe, handleReconnect sends another: two requests pending for one subscription. *)
+Theorem C18_ws_resubscribe_once_refuted :
+  exists evs w s,
+    wrun evs winit = Some w /\ no_rc_abort evs /\ In s (w_conf w) /\ settled (w_spc w s) = true /\
+    w_hpc w = HIdle /\ sends_since_clear s (w_log w) = 2 /\ length (w_pend w) = 2.
+Proof. exact ws_resubscribe_once_refuted. Qed.
+Print Assumptions C18_ws_resubscribe_once_refuted.
+
+(* non-vacuity of 6: a confirmed subscription, a reconnect, the resubscribe *)
+Example C18_ws_resub_nonvacuous :
+  match wrun [ESubCfg 0; ESubInflight 0; ESubSend 0 true; EFrame (FReply (Some 1%N) false (Some 5%N));
+              ERAddActive; ESubWait 0; EClear; ERcInflight 0; ERcSend true] winit with
+  | Some w => nmem 0 (w_conf w) && settled (w_spc w 0%nat) && negb (w_substraddle w) &&
+              (sends_since_clear 0 (w_log w) =? 1)%nat && match w_hpc w with HIdle => true | _ => false end
+  | None => false
+  end = true.
+Proof. vm_compute. reflexivity. Qed.
 
 (* non-vacuity: two calls, replies in reverse order, a duplicate, then a third call caught by a
    reconnect: it ends with the reconnect error in its channel (the hypotheses of theorems 4-5 hold of
